@@ -176,7 +176,8 @@ func runSCIONServer(ctx context.Context, log *slog.Logger, mtrcs *scionServerMet
 			scionLayer.RawDstAddr, scionLayer.RawSrcAddr = scionLayer.RawSrcAddr, scionLayer.RawDstAddr
 			scionLayer.Path, err = scionLayer.Path.Reverse()
 			if err != nil {
-				panic(err)
+				log.LogAttrs(ctx, slog.LevelInfo, "failed to reverse path", slog.Any("error", err))
+				continue
 			}
 			scionLayer.NextHdr = slayers.L4SCMP
 
@@ -230,11 +231,13 @@ func runSCIONServer(ctx context.Context, log *slog.Logger, mtrcs *scionServerMet
 
 		srcAddr, ok := netip.AddrFromSlice(scionLayer.RawSrcAddr)
 		if !ok {
-			panic("unexpected IP address byte slice")
+			log.LogAttrs(ctx, slog.LevelInfo, "failed to decode packet", slog.String("cause", "unexpected source address type"))
+			continue
 		}
 		dstAddr, ok := netip.AddrFromSlice(scionLayer.RawDstAddr)
 		if !ok {
-			panic("unexpected IP address byte slice")
+			log.LogAttrs(ctx, slog.LevelInfo, "failed to decode packet", slog.String("cause", "unexpected destination address type"))
+			continue
 		}
 
 		if int(udpLayer.DstPort) != localHostPort {
@@ -455,7 +458,8 @@ func runSCIONServer(ctx context.Context, log *slog.Logger, mtrcs *scionServerMet
 			scionLayer.RawDstAddr, scionLayer.RawSrcAddr = scionLayer.RawSrcAddr, scionLayer.RawDstAddr
 			scionLayer.Path, err = scionLayer.Path.Reverse()
 			if err != nil {
-				panic(err)
+				log.LogAttrs(ctx, slog.LevelInfo, "failed to reverse path", slog.Any("error", err))
+				continue
 			}
 			scionLayer.NextHdr = slayers.L4UDP
 
